@@ -179,7 +179,16 @@ def prove(pid):
     axioms = []
     for m in re.finditer(r"Axioms:\n((?:.+\n)+)", out):
         axioms.append(m.group(1).strip())
-    return rc == 0, out, {"theorems": theorems, "closed": closed, "axioms": axioms}
+    info = {"theorems": theorems, "closed": closed, "axioms": axioms}
+    if rc == 0 and os.environ.get("VERIF_TIER") == "thorough" and os.environ.get("VERIF_NO_COQCHK") != "1":
+        # independent re-check of the compiled property file and everything it depends on
+        rc2, out2 = sh(["coqchk", "-silent", "-o", "-Q", COQ, "GP", "GP.Properties." + pid], cwd=COQ, timeout=6000, check=False)
+        m = re.search(r"\* Axioms:\s*(.*?)\n\s*\n\* Constants/Inductives relying on type-in-type:\s*(.*?)\n\s*\n\* Constants/Inductives relying on unsafe \(co\)fixpoints:\s*(.*?)\n\s*\n\* Inductives whose positivity is assumed:\s*(.*?)\n", out2, re.S)
+        info["coqchk"] = {"rc": rc2, "axioms": m.group(1).strip() if m else "?", "type_in_type": m.group(2).strip() if m else "?",
+                          "unsafe_fixpoints": m.group(3).strip() if m else "?", "assumed_positivity": m.group(4).strip() if m else "?"}
+        if rc2 != 0 or not m or any(info["coqchk"][k] != "<none>" for k in ("axioms", "type_in_type", "unsafe_fixpoints", "assumed_positivity")):
+            return False, out + "\ncoqchk:\n" + out2[-2000:], info
+    return rc == 0, out, info
 
 
 # ---------------------------------------------------------------- running things
@@ -351,6 +360,8 @@ class Check:
         self.cov["discharged"] = len(info["theorems"]) if ok else 0
         self.cov["checker_cmd"] = "make -C coq (full .vo build) && coqc -Q coq GP coq/Properties/%s.v" % self.pid
         self.notes["theorems"] = info["theorems"]
+        if info.get("coqchk"):
+            self.notes["coqchk"] = info["coqchk"]
         self.notes["print_assumptions"] = ("all %d closed under the global context" % info["closed"]) \
             if not info["axioms"] else info["axioms"]
         if not ok or not coq_ok:
